@@ -72,10 +72,56 @@ def check_closures(src, problems):
                             'the store model describe the previous text' % (k[0], k[1], w.get(k), g.get(k)))
 
 
+# class bodies and module constants the model relies on (value facts, fail-closed)
+CLASS_FACTS = {
+    ('config/__init__.py', 'Configurator'): {
+        'bases': ['ActionConfiguratorMixin', 'PredicateConfiguratorMixin', 'TestingConfiguratorMixin', 'TweensConfiguratorMixin',
+                  'SecurityConfiguratorMixin', 'ViewsConfiguratorMixin', 'RoutesConfiguratorMixin', 'ZCAConfiguratorMixin',
+                  'I18NConfiguratorMixin', 'RenderingConfiguratorMixin', 'AssetsConfiguratorMixin', 'SettingsConfiguratorMixin',
+                  'FactoriesConfiguratorMixin', 'AdaptersConfiguratorMixin'],
+        # the root configurator's include chain is empty, no action info / base path before an include
+        'attrs': {'includepath': '()', '_ainfo': 'None', 'basepath': 'None', 'info': "''",
+                  'introspector': 'property(_get_introspector, _set_introspector, _del_introspector)'}},
+    ('config/actions.py', 'ActionConfiguratorMixin'): {
+        'bases': [], 'attrs': {'action_state': 'property(_get_action_state, _set_action_state)', '_ctx': 'action_state'}},
+    ('config/views.py', 'ViewsConfiguratorMixin'): {
+        'bases': None, 'attrs': {'set_forbidden_view': 'add_forbidden_view', 'set_notfound_view': 'add_notfound_view'}},
+}
+
+
+def check_class_facts(src, problems):
+    import ast
+    for (fn, cls), want in CLASS_FACTS.items():
+        try:
+            tree = ast.parse(open(os.path.join(src, 'pyramid', fn)).read())
+            node = [c for c in tree.body if isinstance(c, ast.ClassDef) and c.name == cls][0]
+        except Exception as e:
+            problems.append('class %s:%s unreadable: %r' % (fn, cls, e))
+            continue
+        if want['bases'] is not None and [ast.unparse(b) for b in node.bases] != want['bases']:
+            problems.append('base classes of %s changed: %s' % (cls, [ast.unparse(b) for b in node.bases]))
+        attrs = {}
+        for st in node.body:
+            if isinstance(st, ast.Assign) and len(st.targets) == 1 and isinstance(st.targets[0], ast.Name):
+                attrs[st.targets[0].id] = ast.unparse(st.value)
+        for k, v in want['attrs'].items():
+            if attrs.get(k) != v:
+                problems.append('class attribute %s.%s changed: %r -> %r' % (cls, k, v, attrs.get(k)))
+    try:
+        m = F.Module(src, 'pyramid/config/predicates.py')
+        v = T._eval_weight(m.const_expr('MAX_ORDER'), 0)      # restricted arithmetic evaluator (ints, <<, +, ...)
+        from . import order
+        if v != order.MAX_ORDER:
+            problems.append('predicates.MAX_ORDER changed: %r (the order formula of harness/c08/order.py uses %r)' % (v, order.MAX_ORDER))
+    except Exception as e:
+        problems.append('predicates.MAX_ORDER unrecognised: %r' % e)
+
+
 def facts(src):
     problems = []
     summary = F.check_shapes(src, os.path.join(HERE, 'pins.json'), problems)
     check_closures(src, problems)
+    check_class_facts(src, problems)
     ex = T.extract(src, problems)
     sites = ex['sites']
     names = [s[0] for s in sites]
